@@ -18,7 +18,8 @@ for k in sorted(os.listdir(os.path.join(wt, "out"))):
     blk = logtxt[m.start():m.start() + 900] if m else ""
     ok = bool(m) and "build=ok" in m.group(1) and "[0 failed of 433]" in m.group(1) and \
         (("demo_with=0 demo_without=0" not in m.group(1) and "demo_without=0" in m.group(1) and "demo_with=0" not in m.group(1)) or
-         ("with: exit=1" in blk and "without: exit=0" in blk))
+         ("with: exit=1" in blk and "without: exit=0" in blk) or
+         (re.search(r"^\s+with: [1-9]\d*\s*$", blk, re.M) and re.search(r"^\s+without: 0\s*$", blk, re.M)))
     if not ok:
         print("NOT CONFIRMED", wt, k, m.group(1)[:120] if m else "no CONFIRM line")
         continue
